@@ -8,6 +8,7 @@ import (
 	"path/filepath"
 	"sort"
 	"strings"
+	"verifharness/vexec"
 
 	"github.com/33cn/chain33/common/address"
 	"github.com/33cn/chain33/common/crypto"
@@ -26,7 +27,7 @@ func c14Opts(dir string) node.Options {
 		c.Exec.EnableMVCC = os.Getenv("VERIF_C14_MVCC") != ""
 		c.Exec.EnableStat = false
 		c.Exec.EnableAddrFeeIndex = true
-	}}
+	}, ChainCfg: func(c *types.Chain33Config) { vexec.Register(c) }}
 }
 
 type txGen struct {
@@ -34,6 +35,7 @@ type txGen struct {
 	r    *lib.Rng
 	keys []crypto.PrivKey // funded senders
 	pool []string         // recurring receiver addresses
+	seq  int
 }
 
 func (g *txGen) coins(from crypto.PrivKey, to string, amt int64) *types.Transaction {
@@ -108,9 +110,19 @@ func (g *txGen) block() (txs []*types.Transaction, kinds []string) {
 		case k < 84:
 			txs = append(txs, g.toExec(from, "none", int64(r.Range(1, 3))*1e5, true))
 			use["withdraw"] = true
-		case k < 92:
+		case k < 89:
 			txs = append(txs, util.CreateNoneTx(g.cfg, from))
 			use["none-tx"] = true
+		case k < 94:
+			// two or three transactions of the synthetic executor overwriting the SAME local row, each remembering the value
+			// it replaced: exact undo needs the per-transaction removal to run in reverse order
+			row := vexec.LocalKey("vexec", fmt.Sprintf("row%d", r.Intn(3)))
+			for j := 0; j < r.Range(2, 3); j++ {
+				g.seq++
+				p := &vexec.Program{Nonce: int64(r.U64() >> 2), Local: []vexec.Op{{Op: "lchain", K: row, V: fmt.Sprintf("c%d", g.seq)}}}
+				txs = append(txs, vexec.NewTx(g.cfg, "vexec", p, from, 0))
+			}
+			use["chained-local-rows"] = true
 		default:
 			txs = append(txs, g.group(r.Range(2, 4))...)
 			use["group"] = true
@@ -206,12 +218,12 @@ func queries(n *node.Node, txs [][]byte, addrs []string) querySnap {
 }
 
 type c14Case struct {
-	Index   int      `json:"index"`
-	Kinds   []string `json:"kinds"`
-	NTx     int      `json:"ntx"`
-	Changed int      `json:"records_changed_by_add"` // measured: how many raw records the add touched
-	Diffs   []idxDiff `json:"diffs,omitempty"`       // raw differences after add+del
-	QDiffs  []string  `json:"query_diffs,omitempty"` // query-level differences after add+del
+	Index   int       `json:"index"`
+	Kinds   []string  `json:"kinds"`
+	NTx     int       `json:"ntx"`
+	Changed int       `json:"records_changed_by_add"` // measured: how many raw records the add touched
+	Diffs   []idxDiff `json:"diffs,omitempty"`        // raw differences after add+del
+	QDiffs  []string  `json:"query_diffs,omitempty"`  // query-level differences after add+del
 	Err     string    `json:"err,omitempty"`
 }
 
